@@ -2,7 +2,8 @@
    where layout DOES matter in the faithful model (refutations of the unrestricted claims). *)
 From Coq Require Import List NArith ZArith Bool Lia Arith String Ascii.
 From RPFT Require Import Base.Sexp Base.PyStr Base.PyStrFacts Base.Result Base.ODict Gen.Tables Cell.Cell Cell.CellFacts
-  Row.Ty Row.RowParse Row.FlowRow Row.ParseFold Row.Encodes Row.EncodesFacts Row.FlowHeaderFacts.
+  Row.Ty Row.RowParse Row.FlowRow Row.ParseFold Row.Encodes Row.EncodesFacts Row.FlowHeaderFacts Row.HeaderFacts
+  Row.StarFacts.
 Import ListNotations.
 Local Open Scope N_scope.
 
@@ -362,3 +363,49 @@ Example positional_is_spread_nonvacuous :
   plain s!"c" = true /\ plain s!"x" = true /\ has_field fieldsAB s!"c" = false
   /\ parse_row rmAB (ab_positional s!"c" s!"x") = Ok (rowAB s!"c" s!"x").
 Proof. repeat split; vm_compute; reflexivity. Qed.
+
+(* ================================================================== `*` groups *)
+(* class G: a: str = ""; b: str = ""; t: str = "d"     class RG: id: str = ""; p: List[G] = [] *)
+Definition gfields : list field :=
+  [(s!"a", (TStr, Some (VStr []))); (s!"b", (TStr, Some (VStr []))); (s!"t", (TStr, Some (VStr s!"d")))].
+Definition rgfields : list field :=
+  [(s!"id", (TStr, Some (VStr []))); (s!"p", (TList (TModel gfields [] []), Some (VList [])))].
+Definition vG (a b t : string) : value := VModel [(s!"a", VStr (S_ a)); (s!"b", VStr (S_ b)); (s!"t", VStr (S_ t))].
+
+(* longest list first, a SHORTER list later, then a cell holding one (non-default) value *)
+Definition gcells : list starcell :=
+  [ {| st_g := s!"a"; st_txt := s!"x|y|z" |}; {| st_g := s!"b"; st_txt := s!"u|v" |}; {| st_g := s!"t"; st_txt := s!"k" |} ].
+Definition gvs : list value := [vG "x" "u" "k"; vG "y" "v" "k"; vG "z" "" "k"].
+Definition gfs : list (str * value) := [(s!"id", VStr []); (s!"p", VList gvs)].
+
+Example asterisk_broadcast_nonvacuous :
+  star_data s!"p" gcells = [(s!"p.*.a", s!"x|y|z"); (s!"p.*.b", s!"u|v"); (s!"p.*.t", s!"k")]
+  /\ group_len s!"p" gcells = 3%nat
+  /\ parse_row {| rm_ty := TModel rgfields [] []; rm_ctx := None |} (star_data s!"p" gcells) = Ok (VModel gfs)
+  /\ forall i f, (i < group_len s!"p" gcells)%nat -> In f gfields -> f_name f = s!"t" ->
+                 exists efs v, nth i gvs (VStr []) = VModel efs /\ In (f_name f, v) efs /\ EncNv (f_ty f) v (Str s!"k").
+Proof.
+  split; [vm_compute; reflexivity|]. split; [vm_compute; reflexivity|].
+  assert (H := asterisk_broadcast_row rgfields [] [] s!"p" gcells gfields [] [] gvs gfs
+                 {| st_g := s!"t"; st_txt := s!"k" |} s!"k").
+  cbv zeta in H.
+  destruct H as [Hparse [_ Hb]].
+  - reflexivity.
+  - repeat constructor.
+  - nodup.
+  - nodup.
+  - vm_compute. reflexivity.
+  - nodup.
+  - nodup.
+  - vm_compute. intros sc [<-|[<-|[<-|[]]]]; vm_compute; discriminate.
+  - vm_compute. reflexivity.
+  - replace (group_len s!"p" gcells) with 3%nat by (vm_compute; reflexivity).
+    intros i Hi. destruct i as [|[|[|i]]]; [| | |lia]; eexists; (split; [reflexivity|]);
+      unfold star_elem_spec; vm_compute;
+      repeat (apply Forall2_cons; [split; [reflexivity|first [reflexivity|apply NvStr]]|]); apply Forall2_nil.
+  - unfold group_row_spec. vm_compute.
+    repeat (apply Forall2_cons; [split; reflexivity|]). apply Forall2_nil.
+  - right. right. left. reflexivity.
+  - vm_compute. reflexivity.
+  - split; [exact Hparse|]. intros i f Hi Hf Hname. apply (Hb i f Hi Hf). rewrite Hname. reflexivity.
+Qed.
